@@ -237,7 +237,18 @@ def σ3' : Store :=
 
 theorem σ3_nc : NoConstraints σ3 := noConstraintsB_sound (by decide)
 
+/-- `bind` hands the lower bound of `x0` to `x1` through `unify`; its occurs check (`match3`,
+well-founded recursion) does not evaluate by `rfl` and is rewritten away -/
+theorem ex3_bind : bind exL 9 σ3 0 (.var 1) = .ok σ3' := by
+  rw [bind_var_eq]
+  have e1 : (getVar σ3 0).lower = some 6 := rfl
+  have e2 : (getVar σ3 0).upper = none := rfl
+  simp only [e1, e2]
+  rw [unify_base_unbound (by with_unfolding_all rfl)]
+  with_unfolding_all rfl
+
 theorem ex3_run : unify exL 10 σ3 (.var 0) (.var 1) true false false = .ok σ3' := by
+  rw [← ex3_bind]
   with_unfolding_all rfl
 
 theorem reach_in_closed {σ : Store} {S : Nat → Prop} (hc : Closed σ S) {t : Term} (ht : TermIn S t) :
